@@ -484,6 +484,9 @@ class Gen:
         a, n = rng.choice([0, 0, 1, -1]), rng.choice([0, 1, 2, 3, 3, 4, 5])
         step = rng.choice([1, 1, 1, 2])
         inc = ("incr", i, 1) if step == 1 else ("assign", i, ("bin", "+", ("var", i), ("lit", step)))
+        if rng.random() < 0.3:
+            # parentheses inside the increment: the header ends at the ')' that closes it, not at the first one
+            inc = ("assign", i, ("bin", "+", ("var", i), ("bin", "*", ("lit", step), ("lit", 1))))
         body = self.block(vars_ + [i], depth - 1, rng.randrange(1, 4), True, in_func, written)
         return ("for", i, ("lit", a), ("cmp", rng.choice(["<", "<="]), ("var", i), ("lit", n)), inc, body)
 
